@@ -46,123 +46,219 @@ fn any_layerings(n: usize, paths: &[String]) -> Vec<InitSpec> {
 }
 
 #[derive(Clone, Copy, Debug)]
-enum IStep {
+enum HStep {
+    OpenReader,
+    OpenAppend,
+    OpenCreate,
+    DropReader,
+    DropWriter,
     Read1,
-    SeekEnd3,
-    SeekStart0,
     Write,
     Flush,
     RemoveFile,
-    RemoveParentAll,
     RecreateFile,
     RecreateAsDir,
+    RemoveParentAll,
+    SeekEnd3,
+    SeekStart0,
 }
 
-/// Reader and writer handles used while their file / parent directory is removed or replaced.
-fn handles_vs_removals(
-    depth: usize,
-    vio: &mut Vec<Violation>,
-    classes: &mut BTreeMap<String, u64>,
-) -> u64 {
-    let steps = [
-        IStep::Read1,
-        IStep::SeekEnd3,
-        IStep::SeekStart0,
-        IStep::Write,
-        IStep::Flush,
-        IStep::RemoveFile,
-        IStep::RemoveParentAll,
-        IStep::RecreateFile,
-        IStep::RecreateAsDir,
-    ];
-    let cfgs = [
-        Cfg::Mem,
-        Cfg::Phys,
-        Cfg::alt(Cfg::Mem, "/Z"),
-        Cfg::Ov(vec![Cfg::Mem, Cfg::Mem]),
-    ];
-    let n = steps.len();
-    let total = n.pow(depth as u32);
-    let work: Vec<(usize, bool, usize)> = (0..cfgs.len())
-        .flat_map(|c| {
-            [false, true]
-                .into_iter()
-                .flat_map(move |w| (0..total).map(move |s| (c, w, s)))
+const HSTEPS: [HStep; 14] = [
+    HStep::OpenReader,
+    HStep::OpenAppend,
+    HStep::OpenCreate,
+    HStep::DropReader,
+    HStep::DropWriter,
+    HStep::Read1,
+    HStep::Write,
+    HStep::Flush,
+    HStep::RemoveFile,
+    HStep::RecreateFile,
+    HStep::RecreateAsDir,
+    HStep::RemoveParentAll,
+    HStep::SeekEnd3,
+    HStep::SeekStart0,
+];
+
+fn hscript(code: usize, depth: usize) -> Vec<HStep> {
+    let n = HSTEPS.len();
+    let mut x = code;
+    (0..depth)
+        .map(|_| {
+            let s = HSTEPS[x % n];
+            x /= n;
+            s
         })
+        .collect()
+}
+
+/// One read handle and one write handle on the same file, opened, used, dropped and re-opened in
+/// every order (while the file is also removed / re-created), on the sync and on the async stacks.
+fn handle_interplay(depth: usize, vio: &mut Vec<Violation>, classes: &mut BTreeMap<String, u64>) -> u64 {
+    use crate::asyncmc::{abuild, block_on};
+    use async_std::io::prelude::{ReadExt as _, SeekExt as _, WriteExt as _};
+    let cfgs = [Cfg::Mem, Cfg::alt(Cfg::Mem, "/Z"), Cfg::Ov(vec![Cfg::Mem, Cfg::Mem]), Cfg::Phys];
+    let total = HSTEPS.len().pow(depth as u32);
+    let work: Vec<(usize, bool, usize)> = (0..cfgs.len())
+        .flat_map(|c| [false, true].into_iter().flat_map(move |a| (0..total).map(move |s| (c, a, s))))
         .collect();
+    // the library's async read_dir prints every entry: keep stdout clean while the sweep runs
+    let quiet = crate::asyncmc::Silence::start();
     let res: Vec<(Vec<Violation>, Vec<String>)> = work
         .par_iter()
-        .map(|(ci, writer, code)| {
+        .map(|(ci, is_async, code)| {
             let cfg = &cfgs[*ci];
-            let mut script = vec![];
-            let mut x = *code;
-            for _ in 0..depth {
-                script.push(steps[x % n]);
-                x /= n;
-            }
-            let init: Init = if matches!(cfg, Cfg::Ov(_)) { vec![(1, vec![("/d/f".to_string(), Node::File(b"lower".to_vec()))])] } else { vec![] };
-            let b = build(cfg, Order::Asc, &init);
-            let d = b.root.join("d").unwrap();
-            let f = b.root.join("d/f").unwrap();
-            let _ = d.create_dir_all();
-            if init.is_empty() {
-                let _ = PathApi::write_file(&f, b"abc");
-            }
-            let mut local = vec![];
+            let script = hscript(*code, depth);
+            let init: Init = if matches!(cfg, Cfg::Ov(_)) {
+                vec![(1, vec![("/d/f".to_string(), Node::File(b"lower".to_vec()))])]
+            } else {
+                vec![(0, vec![("/d/f".to_string(), Node::File(b"abc".to_vec()))])]
+            };
             let mut cl = vec![];
-            let r = guard(|| {
+            // every step runs under its own guard and never unwinds past a live handle: a handle
+            // whose Drop panics must not be dropped a second time while the first panic unwinds
+            // (that would abort the process); after the first panic the handles are leaked
+            let r: Result<(), String> = if *is_async {
+                let b = abuild(cfg, Order::Asc, &init);
+                let d = b.root.join("d").unwrap();
+                let f = b.root.join("d/f").unwrap();
+                let mut rd = None;
+                let mut wr = None;
+                let mut res = Ok(());
+                for s in script.iter().map(Some).chain(std::iter::once(None)) {
+                    let step = guard(|| {
+                        let mut buf = [0u8; 1];
+                        match s {
+                            Some(HStep::OpenReader) => {
+                                drop(rd.take());
+                                rd = block_on(f.open_file()).ok();
+                                Some(rd.is_some())
+                            }
+                            Some(HStep::OpenAppend) => {
+                                drop(wr.take());
+                                wr = block_on(f.append_file()).ok();
+                                Some(wr.is_some())
+                            }
+                            Some(HStep::OpenCreate) => {
+                                drop(wr.take());
+                                wr = block_on(f.create_file()).ok();
+                                Some(wr.is_some())
+                            }
+                            Some(HStep::DropReader) => rd.take().map(|_| true),
+                            Some(HStep::DropWriter) => wr.take().map(|_| true),
+                            Some(HStep::Read1) => rd.as_mut().map(|h| block_on(h.read(&mut buf)).is_ok()),
+                            Some(HStep::Write) => wr.as_mut().map(|h| block_on(h.write_all(b"w")).is_ok()),
+                            Some(HStep::Flush) => wr.as_mut().map(|h| block_on(h.flush()).is_ok()),
+                            Some(HStep::RemoveFile) => Some(block_on(f.remove_file()).is_ok()),
+                            Some(HStep::RecreateFile) => Some(block_on(d.create_dir_all()).is_ok() && block_on(async { f.create_file().await?.write_all(b"new").await.map_err(vfs::VfsError::from) }).is_ok()),
+                            Some(HStep::RecreateAsDir) => Some(block_on(f.create_dir_all()).is_ok()),
+                            Some(HStep::RemoveParentAll) => Some(block_on(d.remove_dir_all()).is_ok()),
+                            Some(HStep::SeekEnd3) => rd.as_mut().map(|h| block_on(h.seek(SeekFrom::End(3))).is_ok()),
+                            Some(HStep::SeekStart0) => rd.as_mut().map(|h| block_on(h.seek(SeekFrom::Start(0))).is_ok()),
+                            None => {
+                                // end of the script: close both, the filesystem is still usable
+                                drop(rd.take());
+                                drop(wr.take());
+                                let _ = block_on(f.exists());
+                                let _ = block_on(d.read_dir());
+                                None
+                            }
+                        }
+                    });
+                    match step {
+                        Ok(c) => cl.push(format!("async:{:?}:{:?}", s, c)),
+                        Err(m) => {
+                            res = Err(m);
+                            break;
+                        }
+                    }
+                }
+                std::mem::forget(rd);
+                std::mem::forget(wr);
+                res
+            } else {
+                let b = build(cfg, Order::Asc, &init);
+                let d = b.root.join("d").unwrap();
+                let f = b.root.join("d/f").unwrap();
                 let mut rd: Option<Box<dyn vfs::SeekAndRead + Send>> = None;
                 let mut wr: Option<Box<dyn vfs::SeekAndWrite + Send>> = None;
-                if *writer {
-                    wr = f.append_file().ok();
-                } else {
-                    rd = f.open_file().ok();
+                let mut res = Ok(());
+                for s in script.iter().map(Some).chain(std::iter::once(None)) {
+                    let step = guard(|| {
+                        let mut buf = [0u8; 1];
+                        match s {
+                            Some(HStep::OpenReader) => {
+                                drop(rd.take());
+                                rd = f.open_file().ok();
+                                Some(rd.is_some())
+                            }
+                            Some(HStep::OpenAppend) => {
+                                drop(wr.take());
+                                wr = f.append_file().ok();
+                                Some(wr.is_some())
+                            }
+                            Some(HStep::OpenCreate) => {
+                                drop(wr.take());
+                                wr = f.create_file().ok();
+                                Some(wr.is_some())
+                            }
+                            Some(HStep::DropReader) => rd.take().map(|_| true),
+                            Some(HStep::DropWriter) => wr.take().map(|_| true),
+                            Some(HStep::Read1) => rd.as_mut().map(|h| h.read(&mut buf).is_ok()),
+                            Some(HStep::Write) => wr.as_mut().map(|h| h.write_all(b"w").is_ok()),
+                            Some(HStep::Flush) => wr.as_mut().map(|h| h.flush().is_ok()),
+                            Some(HStep::RemoveFile) => Some(f.remove_file().is_ok()),
+                            Some(HStep::RecreateFile) => Some(d.create_dir_all().is_ok() && PathApi::write_file(&f, b"new").is_ok()),
+                            Some(HStep::RecreateAsDir) => Some(f.create_dir_all().is_ok()),
+                            Some(HStep::RemoveParentAll) => Some(d.remove_dir_all().is_ok()),
+                            Some(HStep::SeekEnd3) => {
+                                let a = rd.as_mut().map(|h| h.seek(SeekFrom::End(3)).is_ok());
+                                let b = wr.as_mut().map(|h| h.seek(SeekFrom::End(3)).is_ok());
+                                a.or(b)
+                            }
+                            Some(HStep::SeekStart0) => {
+                                let a = rd.as_mut().map(|h| h.seek(SeekFrom::Start(0)).is_ok());
+                                let b = wr.as_mut().map(|h| h.seek(SeekFrom::Start(0)).is_ok());
+                                a.or(b)
+                            }
+                            None => {
+                                drop(rd.take());
+                                drop(wr.take());
+                                let _ = crate::snapshot::snapshot(&b.root, &["/d".to_string(), "/d/f".to_string()]);
+                                None
+                            }
+                        }
+                    });
+                    match step {
+                        Ok(c) => cl.push(format!("sync:{:?}:{:?}", s, c)),
+                        Err(m) => {
+                            res = Err(m);
+                            break;
+                        }
+                    }
                 }
-                for s in &script {
-                    let mut buf = [0u8; 1];
-                    let c = match s {
-                        IStep::Read1 => rd.as_mut().map(|h| h.read(&mut buf).is_ok()),
-                        IStep::SeekEnd3 => match (&mut rd, &mut wr) {
-                            (Some(h), _) => Some(h.seek(SeekFrom::End(3)).is_ok()),
-                            (_, Some(h)) => Some(h.seek(SeekFrom::End(3)).is_ok()),
-                            _ => None,
-                        },
-                        IStep::SeekStart0 => match (&mut rd, &mut wr) {
-                            (Some(h), _) => Some(h.seek(SeekFrom::Start(0)).is_ok()),
-                            (_, Some(h)) => Some(h.seek(SeekFrom::Start(0)).is_ok()),
-                            _ => None,
-                        },
-                        IStep::Write => wr.as_mut().map(|h| h.write(b"w").is_ok()),
-                        IStep::Flush => wr.as_mut().map(|h| h.flush().is_ok()),
-                        IStep::RemoveFile => Some(f.remove_file().is_ok()),
-                        IStep::RemoveParentAll => Some(d.remove_dir_all().is_ok()),
-                        IStep::RecreateFile => Some(d.create_dir_all().is_ok() && PathApi::write_file(&f, b"new").is_ok()),
-                        IStep::RecreateAsDir => Some(f.create_dir_all().is_ok()),
-                    };
-                    cl.push(format!("{:?}:{:?}", s, c));
-                }
-                drop(rd);
-                drop(wr);
-                // the filesystem is still usable afterwards
-                let _ = crate::snapshot::snapshot(&b.root, &["/d".to_string(), "/d/f".to_string()]);
-            });
+                std::mem::forget(rd);
+                std::mem::forget(wr);
+                res
+            };
+            let mut local = vec![];
             if let Err(m) = r {
+                let world = if *is_async { "async" } else { "sync" };
                 local.push(Violation {
                     property: "C13".into(),
-                    signature: format!("{}|{}-handle-vs-removal|panic|{}", cfg.label(), if *writer { "append" } else { "read" }, m.split(" @ ").last().unwrap_or("")),
-                    summary: format!("{} handle on {} with script {:?}: panicked: {}", if *writer { "append" } else { "read" }, cfg.label(), script, m),
-                    replay: json!({"engine": "handle-vs-removal", "configuration": cfg.label(), "writer": writer, "script": format!("{:?}", script)}),
+                    signature: format!("{} {}|reader-and-writer-on-one-file|panic|{}", world, cfg.label(), m.split(" @ ").last().unwrap_or("")),
+                    summary: format!("{} {}: script {:?} on /d/f: panicked: {}", world, cfg.label(), script, m),
+                    replay: json!({"engine": "handle-interplay", "world": world, "configuration": cfg.label(), "script": format!("{:?}", script)}),
                 });
             }
             (local, cl)
         })
         .collect();
+    drop(quiet);
     for (v, cl) in res {
         vio.extend(v);
         for c in cl {
-            *classes
-                .entry(format!("handle-vs-removal:{}", c))
-                .or_insert(0) += 1;
+            *classes.entry(format!("handle-interplay:{}", c)).or_insert(0) += 1;
         }
     }
     work.len() as u64
@@ -463,9 +559,10 @@ pub fn run_c13(ctx: &Ctx) -> i32 {
     let mut classes: BTreeMap<String, u64> = BTreeMap::new();
     let mut extra_runs = 0u64;
 
-    // handles used while their file is removed / replaced
-    let n = handles_vs_removals(if thorough { 4 } else { 3 }, &mut vio, &mut classes);
-    println!("  [handles vs removals] scripts={}", n);
+    // a reader and a writer on the same file at the same time while the file / its parent is
+    // removed or replaced, in both worlds
+    let n = handle_interplay(if thorough { 4 } else { 3 }, &mut vio, &mut classes);
+    println!("  [reader and writer handles on one file, sync and async] scripts={}", n);
     extra_runs += n;
 
     // reader / writer scripts at every offset (only panics count here; values are C14's business)
@@ -535,7 +632,7 @@ pub fn run_c13(ctx: &Ctx) -> i32 {
 
     let mut xs = Stats {
         label:
-            "handle scripts, handles vs removals, hostile disk contents, EmbeddedFS, join strings"
+            "handle scripts, reader+writer interplay with removals, hostile disk contents, EmbeddedFS, join strings"
                 .into(),
         states: 1,
         transitions: extra_runs,
